@@ -30,7 +30,9 @@ func TestMain(m *testing.M) {
 	vkit.Main(m)
 }
 
-var extraAlphabet = []string{"h2", "http/1.1", "grpc", "a", "__AUTH__", "__UNAUTH__", "v1-nodee-", "xv1-nodee-authenticate-node-", "v1-nodee-authenticate-node", "v1-nodee-certificate-preference", strings.Repeat("z", 255), "proto-one", "proto-two"}
+var extraAlphabet = []string{"h2", "http/1.1", "grpc", "a", "__AUTH__", "__UNAUTH__", "v1-nodee-", "xv1-nodee-authenticate-node-", "v1-nodee-authenticate-node", "v1-nodee-certificate-preference", strings.Repeat("z", 255), "proto-one", "proto-two",
+	// the application's own names may CONTAIN a library prefix without starting with it
+	"myapp/v1-nodee-certificate-preference-blue", "fallback+v1-nodee-certificate-preference-", "app.v1-nodee-authenticate-node-x", "x/v1-nodee-fetch-node-creds-"}
 
 func genState(t *rapid.T) (string, *structpb.Struct) {
 	kind := rapid.SampledFrom([]string{"absent", "absent", "empty", "flat", "nested", "large", "huge"}).Draw(t, "stateKind")
